@@ -264,3 +264,56 @@ PROPS["C19"] = {
 PROPS["C20"]["streams"] = PROPS["C20"]["streams"] + [{"args": ["procleak"], "shards_quick": 4, "shards_thorough": 8, "timeout": 600}]
 PROPS["C20"]["ops"] = ["srv", "procleak"]
 PROPS["C20"]["need_bins"] = True
+
+
+# ---------------------------------------------------------------------------------------------
+# Constant ties: propositions relating the constants REGENERATED from /repo's source on every run
+# (checklib/extract_constants.py -> lean/Rough/Generated/Constants.lean) to the model's constants.
+# (expr, tactic); discharged in a scratch file by ./check and counted as proof obligations.
+G = "Rough.Generated"
+D = "by decide"
+K = "Rough.Lemmas.Keys"
+CONST = {
+    "missing": (f"{G}.MISSING = []", D),
+    "min_len": (f"Rough.MIN_REQUEST_LENGTH = {G}.MIN_REQUEST_LENGTH ∧ Rough.MAX_REQUEST_LENGTH = {G}.MAX_REQUEST_LENGTH", D),
+    "framing": (f"Rough.framing = {G}.REQUEST_FRAMING_BYTES ∧ Rough.Spec.RT.magic = {G}.REQUEST_FRAMING_BYTES", D),
+    "tweaks": (f"{G}.TREE_LEAF_TWEAK = [0] ∧ {G}.TREE_NODE_TWEAK = [1] ∧ {G}.IETF_NODE_LEN = 32", D),
+    "tags": (f"Rough.Tag.all.map Rough.Tag.wire = {G}.TAG_WIRES ∧ Rough.Tag.all.map Rough.Tag.name = {G}.TAG_ORDER ∧ {G}.TAG_FROM_WIRE_CONSISTENT = true ∧ {G}.NESTED_TAGS_ARE_CERT_DELE_SREP = true", D),
+    "ver_wire": (f"Rough.Version.google.wire = {G}.GOOGLE_WIRE ∧ Rough.Version.ietf.wire = {G}.IETF_WIRE ∧ Rough.Spec.RT.ver13 = {G}.IETF_WIRE ∧ {G}.SUPPORTED_VERSIONS_GOOGLE_THEN_IETF = true", D),
+    "dele_ctx": (f"Rough.Version.google.delePrefix = {G}.GOOGLE_DELE_PREFIX ∧ Rough.Version.ietf.delePrefix = {G}.IETF_DELE_PREFIX", f"by rw [{K}.delePrefix_google, {K}.delePrefix_ietf]; decide"),
+    "srep_ctx": (f"Rough.Version.google.srepPrefix = {G}.GOOGLE_SREP_PREFIX ∧ Rough.Version.ietf.srepPrefix = {G}.IETF_SREP_PREFIX", f"by rw [{K}.srepPrefix_eq, {K}.srepPrefix_eq]; decide"),
+    "nonce_len": (f"Rough.Version.google.nonceLen = {G}.CLASSIC_NONCE_LENGTH ∧ Rough.Version.ietf.nonceLen = {G}.RFC_NONCE_LENGTH", D),
+    "iter_limit": (f"{G}.ITERATION_LIMIT = 4", D),
+    "radi": (f"Rough.radiOf .google = {G}.RADI_GOOGLE ∧ Rough.radiOf .ietf = {G}.RADI_IETF ∧ {G}.CLASSIC_MIDP_SECS_FACTOR = 1000000 ∧ {G}.CLASSIC_MIDP_NANOS_DIVISOR = 1000", D),
+    "srv_prefix": (f"{G}.HASH_PREFIX_SRV = [255]", D),
+    "sig_len": (f"{G}.SIGNATURE_LENGTH = 64 ∧ {G}.SEED_LENGTH = 32", D),
+    "max_batches": (f"{G}.MAX_BATCHES_PER_CALL = 16 ∧ {G}.POLL_TIMEOUT_MS = 100", D),
+    "http": (f"{G}.HTTP_RESPONSE = [72, 84, 84, 80, 47, 49, 46, 49, 32, 50, 48, 48, 32, 79, 75, 10, 67, 111, 110, 116, 101, 110, 116, 45, 76, 101, 110, 103, 116, 104, 58, 32, 48, 10, 67, 111, 110, 110, 101, 99, 116, 105, 111, 110, 58, 32, 99, 108, 111, 115, 101, 10, 10]", D),
+    "cfg_limits": (f"{G}.DEFAULT_BATCH_SIZE = 64 ∧ {G}.DEFAULT_STATUS_INTERVAL = 600 ∧ {G}.MAX_VALID_BATCH_SIZE = 64 ∧ {G}.MAX_VALID_FAULT_PERCENTAGE = 50 ∧ {G}.ENV_NAMES_MATCH_DOCUMENTED = true", D),
+    "kms": (f"Rough.Envelope.AD = {G}.KMS_AD ∧ Rough.Envelope.MIN_PAYLOAD_SIZE = {G}.KMS_MIN_PAYLOAD_SIZE ∧ {G}.KMS_NONCE_LEN_BYTES = 12 ∧ {G}.KMS_TAG_LEN_BYTES = 16 ∧ {G}.KMS_DEK_LEN_BYTES = 32", D),
+    "max_clients": (f"{G}.MAX_CLIENTS = 5000000", D),
+}
+CONST_OF = {
+    "C01": ["missing", "tags", "framing", "dele_ctx", "srep_ctx", "tweaks", "ver_wire"],
+    "C02": ["missing", "tags", "framing", "dele_ctx", "srep_ctx", "tweaks", "ver_wire", "radi", "sig_len"],
+    "C03": ["missing", "tags", "framing", "nonce_len", "ver_wire", "min_len"],
+    "C04": ["missing", "tweaks"],
+    "C05": ["missing", "tags", "framing"],
+    "C06": ["missing", "tags"],
+    "C07": ["missing", "min_len", "nonce_len", "framing"],
+    "C08": ["missing", "min_len", "nonce_len", "max_batches"],
+    "C09": ["missing", "max_batches", "tags"],
+    "C10": ["missing", "dele_ctx", "srv_prefix", "sig_len"],
+    "C11": ["missing", "radi"],
+    "C12": ["missing", "iter_limit", "ver_wire", "nonce_len"],
+    "C13": ["missing", "sig_len"],
+    "C14": ["missing", "kms"],
+    "C15": ["missing", "cfg_limits", "http"],
+    "C16": ["missing", "cfg_limits"],
+    "C17": ["missing", "max_clients"],
+    "C18": ["missing", "max_batches"],
+    "C19": ["missing", "max_batches"],
+    "C20": ["missing", "dele_ctx"],
+}
+for _pid, _names in CONST_OF.items():
+    PROPS[_pid]["const_checks"] = [(n,) + CONST[n] for n in _names]
